@@ -1,25 +1,35 @@
 """C13 - imports bind to the definition loaded last (DESIGN.md section 3, C13; MIR.md lines 663-720).
 
 Obligations (all CBMC on the real mir.c, state constructed directly):
-  additem.seqN          add_item merging rules: N items of one name, every kind symbolic, decision-table oracle
-  pin.<what>            ONE concrete history each (all assertions + a reachability witness): smoke case, binding to
-                        an external, rebinding to a newer export, old binding kept, resolver, both error paths
-  hist.<cfg>.sN         the property: module shapes = configuration <cfg>, EVERY history of N steps over
-                        {load M1|M2|M3, load_external x|y (fresh address), link resolver NULL|knows-y}, permission
-                        symbolic; explored with `cbmc --paths` (one symbolic-execution path per history)
-  full.<cfg>.sN         as hist, without the exclusion described under 'assumptions' (function loaded over a
-                        non-function definition of the same name)
-  redef.func-after-*    that excluded case as one concrete history each
+  additem.seqN            add_item merging rules: N successive items of one name, every kind symbolic, decision-table oracle
+  additem.pin.*           two concrete sequences with reachability witnesses
+  pin.<what>              ONE concrete history each (every assertion + reachability witnesses): smoke case, binding to an
+                          external, rebinding to a newer export, old binding kept, resolver, both error paths ...
+  hist1.<shapes>.sN       one name: the three modules have the given shapes for name y (x unused); EVERY history of N steps
+                          over {load M1|M2|M3, load_external y, link, link with resolver}
+  hist2.<cfg>.sN          two names: shapes of x and y in M1.M2.M3 = <cfg>; EVERY history of N steps over all 7 step kinds
+  full.<cfg>.sN           as hist2, without the exclusion described under 'assumptions'
+  redef.func-after-*      that excluded case as one concrete history each
+hist*/full* are explored with `cbmc --paths` (one symbolic-execution path per history), the redefinition permission is a
+symbolic input wherever a configuration contains an exported function.
 """
+import itertools
 import os
 import random
 
 from vlib import Ob, run_all
 
-SHAPE = ["none", "xdata", "xfunc", "import", "fwdfunc"]   # per (module, name): see harness/C13/link_hist.c
+SHAPE = ["none", "export+data", "export+func", "import", "forward+local func"]   # per (module, name): see harness/C13/link_hist.c
 ABBR = ["-", "D", "F", "i", "w"]
+NONE, D, F, I, W = range(5)
 # step codes of the harness
 LOAD1, LOAD2, LOAD3, EXT_X, EXT_Y, LINK, LINK_RES = range(7)
+
+# CBMC 6.11 resolves `item->u.data->...` (union member that is not the first) exactly only for items in arrays that are NOT split
+# into fields; whole-array objects of 65 elements (the C14 workaround) are slow to assign (profiled: value-set update of every element
+# per store), so the field-sensitivity threshold is lowered instead and the data items live in an 8-element array
+FS_FLAGS = ["--max-field-sensitivity-array-size", "7"]
+FS_DEFS = ["H_ARR=8", "H_ND_MAX=16"]
 
 
 def cfg_name(c):
@@ -27,76 +37,94 @@ def cfg_name(c):
 
 
 def oa25():
-    """Orthogonal array OA(25, 6, 5, 2): 25 rows over (M1.x, M1.y, M2.x, M2.y, M3.x, M3.y); every pair of columns
-    takes all 25 combinations of the 5 shapes (in particular every pair of shapes of one name in two modules)."""
+    """Orthogonal array OA(25, 6, 5, 2): 25 rows over (M1.x, M1.y, M2.x, M2.y, M3.x, M3.y); every pair of columns takes all 25
+    combinations of the 5 shapes (in particular every pair of shapes of one name in two modules, and of two names in one module)."""
     rows = []
     for i in range(5):
         for j in range(5):
             rows.append((i, j, (i + j) % 5, (i + 2 * j) % 5, (i + 3 * j) % 5, (i + 4 * j) % 5))
-    # column order chosen so that (M1.x, M2.x) = (i, j): the primary pair is enumerated in order
-    return [(r[0], r[2], r[1], r[3], r[4], r[5]) for r in rows]
+    return [(r[0], r[2], r[1], r[3], r[4], r[5]) for r in rows]   # (M1.x, M2.x) = (i, j)
 
 
 def table_cap(c):
-    """Entries the module item table model needs: add_item leaves a tombstone for every export/forward replaced by its definition."""
-    n = sum({0: 0, 1: 2, 2: 2, 3: 1, 4: 2}[v] for v in c)
-    return n + 2 + 1
+    """Entries the module item table model needs (add_item leaves a tombstone for every export/forward replaced by a function)."""
+    return sum({NONE: 0, D: 1, F: 2, I: 1, W: 2}[v] for v in c) + 2 + 1
 
 
-# CBMC 6.11 resolves `item->u.data->...` exactly only for items in arrays that are NOT split into fields; whole-array objects of 65 elements
-# are slow to assign (profiled), so the threshold is lowered instead and the data items live in an 8-element array
-FS_FLAGS = ["--max-field-sensitivity-array-size", "7"]
-FS_DEFS = ["H_ARR=8", "H_ND_MAX=16"]
-
-LOOPS = {"harness#0": 4, "harness#1": 6, "h_build_module#0": 3, "h_step_load#0": 3, "h_step_load#1": 3, "h_step_load#2": 3,
+LOOPS = {"harness#0": 4, "h_build_module#0": 3, "h_step_load#0": 3, "h_step_load#1": 3, "h_step_load#2": 3,
          "h_step_link#0": 4, "h_step_link#1": 3, "h_step_link#2": 4, "h_step_link#3": 3, "h_step_link#4": 4,
-         "HTAB_MIR_item_t_do#0": 17, "HTAB_string_t_do#0": 17, "HTAB_val_t_clear#0": 17,
          "MIR_load_module#0": 6, "load_bss_data_section#0": 3, "load_bss_data_section#1": 3,
-         "MIR_link#0": 6, "MIR_link#1": 6, "MIR_link#2": 6, "MIR_link#3": 6, "MIR_link#4": 6, "MIR_link#5": 6,
+         "MIR_link#0": 6, "MIR_link#1": 7, "MIR_link#2": 6, "MIR_link#3": 7, "MIR_link#4": 6, "MIR_link#5": 7,
          "simplify_func#0": 1, "simplify_func#1": 1, "simplify_func#2": 1, "simplify_func#3": 1, "simplify_func#4": 1,
          "remove_unused_and_enumerate_labels#0": 1,
          "strlen#0": 3, "strcmp#0": 3, "memcmp#0": 3, "memcpy#0": 2, "memcpy#1": 3, "memmove#0": 9, "memmove#1": 9}
 
 
-def hist_ob(kind, c, nsteps, exclude, timeout):
+def common(c, nsteps):
     cap = table_cap(c)
     loops = dict(LOOPS)
-    loops.update({"HTAB_MIR_item_t_do#0": cap + 1, "HTAB_string_t_do#0": cap + 1, "HTAB_val_t_clear#0": cap + 1})
-    loops["harness#1"] = nsteps + 1
-    defs = ["H_SHAPES=" + ",".join(str(v) for v in c), "H_NSTEPS=%d" % nsteps, "H_HTAB_MODEL_CAP=%d" % cap, "H_NO_WITNESS"]
+    loops.update({"HTAB_MIR_item_t_do#0": cap + 1, "HTAB_string_t_do#0": cap + 1, "HTAB_val_t_clear#0": cap + 1, "harness#1": nsteps + 1})
+    defs = ["H_SHAPES=" + ",".join(str(v) for v in c), "H_NSTEPS=%d" % nsteps, "H_HTAB_MODEL_CAP=%d" % cap] + FS_DEFS
+    return loops, defs
+
+
+def hist_ob(name, c, nsteps, ops, exclude, timeout):
+    loops, defs = common(c, nsteps)
+    defs += ["H_NO_WITNESS", "H_OPS=" + ",".join(str(o) for o in ops), "H_NOPS=%d" % len(ops)]
     if exclude:
         defs.append("H_FUNC_OVER_NONFUNC=0")
+    has_func = F in c
+    if not has_func:
+        defs.append("H_PERM=0")   # the flag is only read when an exported function is loaded
     desc = "M1(x:%s y:%s) M2(x:%s y:%s) M3(x:%s y:%s)" % tuple(SHAPE[v] for v in c)
-    return Ob("%s.%s.s%d" % (kind, cfg_name(c), nsteps), "C13/link_hist.c", defs=defs, loops=loops, unwind=2, paths=True,
-              object_bits=12, timeout=timeout,
-              sample="%s; every history of %d steps (7 step kinds), permission symbolic%s" %
-                     (desc, nsteps, "; loads of a function over a non-function definition excluded" if exclude else ""))
+    return Ob(name, "C13/link_hist.c", defs=defs, loops=loops, unwind=2, paths=True, object_bits=12, timeout=timeout, flags=FS_FLAGS,
+              sample="%s; every history of %d steps over %d step kinds (%d histories)%s%s" %
+                     (desc, nsteps, len(ops), len(ops) ** nsteps, ", redefinition permission symbolic" if has_func else "",
+                      "; loads of a function over a non-function definition excluded" if exclude else ""))
+
+
+def hist1(shapes, nsteps, timeout):
+    c = (NONE, shapes[0], NONE, shapes[1], NONE, shapes[2])
+    return hist_ob("hist1.%s.s%d" % ("".join(ABBR[v] for v in shapes), nsteps), c, nsteps, [LOAD1, LOAD2, LOAD3, EXT_Y, LINK, LINK_RES], True, timeout)
+
+
+def hist2(c, nsteps, timeout, kind="hist2", exclude=True):
+    return hist_ob("%s.%s.s%d" % (kind, cfg_name(c), nsteps), c, nsteps, range(7), exclude, timeout)
 
 
 def pin_ob(name, c, perm, steps, wit, what):
-    cap = table_cap(c)
-    loops = dict(LOOPS)
-    loops.update({"HTAB_MIR_item_t_do#0": cap + 1, "HTAB_string_t_do#0": cap + 1, "HTAB_val_t_clear#0": cap + 1})
-    loops["harness#1"] = len(steps) + 1
-    defs = ["H_SHAPES=" + ",".join(str(v) for v in c), "H_NSTEPS=%d" % len(steps), "H_HTAB_MODEL_CAP=%d" % cap,
-            "H_PIN=" + ",".join(str(v) for v in [perm] + list(steps))] + ["H_WIT_" + w if w != "ERROR" else "H_ERROR_PATH_WITNESS" for w in wit]
-    return Ob(name, "C13/link_hist.c", defs=defs, loops=loops, unwind=2, object_bits=12, timeout=300,
+    loops, defs = common(c, len(steps))
+    defs += ["H_PIN=" + ",".join(str(v) for v in [perm] + list(steps))] + ["H_WIT_" + w if w != "ERROR" else "H_ERROR_PATH_WITNESS" for w in wit]
+    return Ob(name, "C13/link_hist.c", defs=defs, loops=loops, unwind=2, object_bits=12, timeout=300, flags=FS_FLAGS,
               sample="concrete history: " + what)
 
 
+ADDITEM_LOOPS = {"HTAB_MIR_item_t_do#0": 9, "h_in_list#0": 6, "strlen#0": 3, "strcmp#0": 3}
+
+
 def additem_ob(n, timeout):
-    return Ob("additem.seq%d" % n, "C13/additem.c", defs=["H_NCALLS=%d" % n, "H_NO_WITNESS"],
-              loops={"HTAB_MIR_item_t_do#0": 9, "harness#0": n + 1, "harness#1": n + 1, "h_in_list#0": n + 1, "strlen#0": 3, "strcmp#0": 3},
-              unwind=2, paths=True, object_bits=12, timeout=timeout,
+    loops = dict(ADDITEM_LOOPS)
+    loops.update({"harness#0": n + 1, "harness#1": n + 1})
+    return Ob("additem.seq%d" % n, "C13/additem.c", defs=["H_NCALLS=%d" % n, "H_NO_WITNESS"] + FS_DEFS, loops=loops,
+              unwind=2, paths=True, object_bits=12, timeout=timeout, flags=FS_FLAGS,
               sample="%d successive add_item calls for one name in one module; the kind of every item symbolic over "
                      "{import, export, forward, proto, data, bss, func} (%d sequences)" % (n, 7 ** n))
 
 
 def additem_pin(name, kinds, wit, what):
     n = len(kinds)
-    return Ob(name, "C13/additem.c", defs=["H_NCALLS=%d" % n, "H_KINDS=" + ",".join(str(k) for k in kinds), wit],
-              loops={"HTAB_MIR_item_t_do#0": 9, "harness#0": n + 1, "harness#1": n + 1, "h_in_list#0": n + 1, "strlen#0": 3, "strcmp#0": 3},
-              unwind=2, object_bits=12, timeout=300, sample="concrete sequence: " + what)
+    loops = dict(ADDITEM_LOOPS)
+    loops.update({"harness#0": n + 1, "harness#1": n + 1})
+    return Ob(name, "C13/additem.c", defs=["H_NCALLS=%d" % n, "H_KINDS=" + ",".join(str(k) for k in kinds), wit] + FS_DEFS, loops=loops,
+              unwind=2, object_bits=12, timeout=300, flags=FS_FLAGS, sample="concrete sequence: " + what)
+
+
+# single-name shape multisets (modules are interchangeable: the history ranges over all load orders)
+MULTISETS = [m for m in itertools.combinations_with_replacement(range(5), 3) if m != (NONE, NONE, NONE)]
+# quick: the multisets with an importer and a definition in all three modules (a module that is never loaded behaves as an absent one,
+# so these subsume the multisets in which a module is empty)
+CORE1 = [(D, D, I), (D, F, I), (F, F, I), (D, I, I), (F, I, I), (D, I, W), (F, I, W)]
+FOUR = [(D, NONE, I, NONE, F, I), (F, I, I, D, D, F)]   # hand-picked two-name configurations
 
 
 def obligations(tier):
@@ -105,12 +133,11 @@ def obligations(tier):
     quick = tier == "quick"
     obs = []
     # ---- add_item merging rules
-    obs.append(additem_ob(3 if quick else 4, 600 if quick else 1500))
+    obs.append(additem_ob(3 if quick else 4, 900 if quick else 3000))
     obs.append(additem_pin("additem.pin.merge", [1, 4, 2, 1], "H_WIT_MERGE", "export x; data x; forward x; export x (definition takes the export's place and is "
                            "marked exported, forward chained to it, second export merged)"))
     obs.append(additem_pin("additem.pin.error", [6, 0], "H_ERROR_PATH_WITNESS", "func x; import x -> MIR_import_export_error"))
     # ---- concrete histories: reachability witnesses (each also checks every assertion on its history)
-    D, F, I, W = 1, 2, 3, 4
     obs += [
         pin_ob("pin.smoke", (D, 0, I, 0, 0, 0), 0, [LOAD1, LOAD2, LINK], ["END"], "load M1 (exports data x); load M2 (imports x); link"),
         pin_ob("pin.external", (0, 0, I, 0, 0, 0), 0, [EXT_X, LOAD2, LINK], ["EXT", "END"], "load_external x; load M2 (imports x); link"),
@@ -140,63 +167,68 @@ def obligations(tier):
     ]
     # ---- the property over all histories
     oa = oa25()
-    four = [(D, 0, I, 0, F, I), (F, I, I, D, D, F), (I, F, F, I, W, D), (D, D, I, I, F, F)]   # hand-picked overlap-heavy configurations
     if quick:
+        for m in CORE1:
+            obs.append(hist1(m, 4, 1800))
         for c in oa:
-            obs.append(hist_ob("hist", c, 3, True, 900))
-        for c in four[:2]:
-            obs.append(hist_ob("hist", c, 4, True, 1500))
-        obs.append(hist_ob("full", (F, 0, I, 0, D, 0), 3, False, 900))
+            obs.append(hist2(c, 3, 1200))
+        obs.append(hist2((F, 0, I, 0, D, 0), 3, 1200, kind="full", exclude=False))
     else:
+        for m in MULTISETS:
+            obs.append(hist1(m, 4, 3600))
+        obs.append(hist1(CORE1[0], 5, 7200))
         extra = set()
-        while len(extra) < 15:
+        while len(extra) < 6:
             c = tuple(rnd.randrange(5) for _ in range(6))
-            if c not in oa and c not in four:
+            if c not in oa and c not in FOUR:
                 extra.add(c)
-        for c in oa + four + sorted(extra):
-            obs.append(hist_ob("hist", c, 4, True, 3000))
-        for c in four[:1]:
-            obs.append(hist_ob("hist", c, 5, True, 7200))
-        obs.append(hist_ob("full", (F, 0, I, 0, D, 0), 4, False, 3000))
-        obs.append(hist_ob("full", (F, I, I, D, D, F), 4, False, 3000))
+        for c in oa + FOUR:
+            obs.append(hist2(c, 4, 7200))
+        for c in sorted(extra):
+            obs.append(hist2(c, 3, 3600))
+        obs.append(hist2((F, 0, I, 0, D, 0), 4, 7200, kind="full", exclude=False))
     return obs
 
 
 META = {
     "bounds": {
         "modules": "3 static modules M1..M3, names x and y",
-        "shapes": "per module and name one of {nothing | `export n` + data n | `export n` + empty func n | `import n` | `forward n` + local empty func n}; "
-                  "module shapes are an ENUMERATED configuration (one obligation each): quick = the 25 rows of the orthogonal array OA(25,6,5,2) "
-                  "(every pair of (module,name) positions takes all 25 shape pairs) + 2 hand-picked; thorough = those + 2 + 15 drawn from VERIF_SEED",
-        "history": "every sequence of exactly N steps, each one of 7: load M1|M2|M3, load_external x|y (a fresh address each time), "
-                   "link with resolver NULL | a resolver that knows only y; N = 3 for the OA rows and 4 for the hand-picked ones (quick), "
-                   "4 everywhere and 5 for one configuration (thorough). All checks are made when a step completes, so N-step histories cover shorter ones. "
-                   "Redefinition permission symbolic (set once before the history).",
-        "add_item": "sequences of 3 (quick) / 4 (thorough) items of one name in one module, kind of each symbolic over 7 kinds",
-        "exploration": "`cbmc --paths lifo`: one symbolic-execution path per history (merging the 7 alternatives of a step makes every item pointer "
-                       "symbolic: no verdict for 2 steps in 170 s); the pin.* obligations are single concrete histories with reachability witnesses",
+        "shapes": "per module and name one of {nothing | data n + `export n` | `export n` + empty func n | `import n` | `forward n` + local empty func n}. "
+                  "Module shapes are an ENUMERATED configuration (one obligation each). hist1 (one name): all 34 non-empty multisets of 3 shapes (thorough), "
+                  "the 7 with importer(s) and definitions in all three modules (quick). hist2 (two names): the 25 rows of the orthogonal array OA(25,6,5,2) - every pair of (module,name) positions "
+                  "takes all 25 shape pairs - plus, in thorough, 2 hand-picked (and 6 drawn from VERIF_SEED at 3 steps)",
+        "history": "EVERY sequence of exactly N steps. hist1: N = 4 (5 for one configuration in thorough), step kinds load M1|M2|M3, load_external y (a fresh "
+                   "address each time), link with resolver NULL | a resolver that knows only y (6 kinds; the code does not distinguish names, so the "
+                   "one-name runs use y, the name the resolver knows). hist2: N = 3 (quick) / 4 (thorough), all 7 kinds (also load_external x). "
+                   "All checks are made when a step completes, so N-step histories cover the shorter ones. Redefinition permission: symbolic input "
+                   "(set once before the history) in every configuration with an exported function.",
+        "add_item": "every sequence of 3 (quick) / 4 (thorough) items of one name in one module, kinds over {import, export, forward, proto, data, bss, func}",
+        "exploration": "`cbmc --paths lifo`: one symbolic-execution path per history. Merging the alternatives of a step (plain BMC) makes every item pointer "
+                       "symbolic: no verdict for 2 steps in 170 s. pin.* / redef.* / additem.pin.* are single concrete histories with reachability witnesses",
     },
     "assumptions": [
         "state constructed directly (no MIR_init, no MIR_new_module/MIR_new_func: they do not get through symbolic execution): static context, "
         "static modules whose item lists are built by the REAL add_item from hand-made item objects; functions have EMPTY instruction lists "
         "(simplify_func runs on them; process_inlines is never reached)",
-        "mir-htab.h replaced by the abstract-map model h_htab_model.h (justified by C19), mir-hash.h by a constant hash; MIR_alloc calls modelled by CBMC's malloc/free; "
-        "the native replay uses the real table, hash and string table",
+        "mir-htab.h replaced by the abstract-map model (harness/C13/htab_model_bounded.h = common h_htab_model.h with the scans limited to the occupied "
+        "prefix; justified by C19), mir-hash.h by a constant hash; MIR_malloc = CBMC malloc at the call site, MIR_free a no-op (CBMC's free() adds a nondet "
+        "flag per call; blocks are never reused here; allocation discipline is C17's); the native replay uses the real table, hash, string table and allocator",
         "the strings x and y are pre-interned in the string table (static initialiser mirroring get_ctx_str); MIR_load_external is called with OTHER "
         "char arrays of the same contents, so the real get_ctx_str/string_store lookup runs",
         "_MIR_get_thunk/_MIR_redirect_thunk (machine code emitters of mir-x86_64.c) are replaced at their two call sites in MIR_load_module by a bump "
         "allocator of distinct thunk objects that records the redirection target",
         "set_interface is a harness function that only counts calls (a non-NULL interface is what makes MIR_link drain its queue; with NULL the queue "
-        "is kept and modules are linked again by the next MIR_link - not covered); which BODY runs after binding (thunk redirection by "
+        "is kept and the same modules are linked again by the next MIR_link - not covered); which BODY runs after binding (thunk redirection by "
         "the interpreter/generator interfaces, direct calls in generated code) is C01/C03's subject",
         "data sections: one named 8-byte data item per exported data definition; contents/contiguity are C14's subject",
         "reading of MIR.md 680-683 ('If there is already an exported item with the same name, it will be not visible for linking anymore'): a later "
         "exported definition or external registration of a name REPLACES the earlier one for all later link steps, silently for data; modules linked "
-        "before keep the address they were bound to. For functions MIR_load_module additionally rejects the load with MIR_repeated_decl_error when the "
-        "name is already defined by an exported MIR FUNCTION and redefinition permission is off",
-        "hist.* obligations EXCLUDE histories in which (permission off) an exported function is loaded while the name is defined by an external address or "
-        "by exported data: the implementation rejects these loads as redefinitions although no function is redefined (redef.* and full.* obligations "
-        "keep that case and report it)",
+        "before keep the address they were bound to (their ref_def points to the shared environment entry, which is updated in place). For functions "
+        "MIR_load_module additionally rejects the load with MIR_repeated_decl_error when the name is already defined by an exported MIR FUNCTION and "
+        "redefinition permission is off. Loading the same module again counts as loading its definitions again",
+        "hist1/hist2 obligations EXCLUDE histories in which (permission off) an exported function is loaded while the name is defined by an external "
+        "address or by exported data: the implementation rejects these loads as redefinitions although no function is redefined (redef.* and full.* "
+        "obligations keep that case and report it)",
         "MIR_change_module_ctx, expr/ref/lref data, import of a name defined in the same module (rejected by add_item: additem.*) are out of scope here",
     ],
     "functions_encoded": ["MIR_load_module", "load_bss_data_section", "setup_global", "new_export_import_forward", "create_item", "get_ctx_str",
